@@ -12,9 +12,16 @@
 //	          the removed shard owned; an addition changes it only to the new
 //	          shard. Hashes: specials, random, values constructed through the
 //	          inverse of splitmix64 so that a chosen shard's mixed value lands
-//	          on Log2Fixed table / power-of-two boundaries, and exact score
+//	          on Log2Fixed table / power-of-two boundaries, exact score
 //	          TIES found by search (the only inputs on which the tie-break
-//	          order is visible).
+//	          order is visible) and NEAR TIES found by search (two best
+//	          shards within a relative 2^-13: the inputs on which removal /
+//	          addition only hold if every surviving shard's score is
+//	          bit-for-bit the same number in the smaller / larger map).
+//	          Shard maps include "scaled" ones whose weights share a common
+//	          factor ({100,100,101}, {6,6,9}, {2000,1000,1000}+7), so that
+//	          the common divisor of the weights differs between the map and
+//	          some of its single removals / additions.
 //	access    recording, failure-injecting backends behind two real
 //	          sharding.NewShardingBlobAccess composites (listing order L and a
 //	          permutation of L, sharing the backends by key). Oracle: Put, Get,
@@ -49,38 +56,43 @@ func main() {
 	run.Main(run.Spec{
 		Property: "C12",
 		Level:    "exploration",
-		Rule: "selector: case = shard map (1-12 shards; keys empty/ascii/long/unicode/binary/near-duplicate; weights from {1,2,3,2^16,2^31,2^32-1}, small and random) x {second construction, permutations (all for n<=4), every single removal, 2-3 single additions at random positions} x hashes {16 specials, random, constructed via splitmix64^-1 to put a chosen shard's mixed value on Log2Fixed LUT/power-of-two boundaries, exact score ties found by search}; " +
+		Rule: "selector: case = shard map (1-12 shards; keys empty/ascii/long/unicode/binary/near-duplicate; weights from {1,2,3,2^16,2^31,2^32-1}, small, random, one common weight, or common factor x {1,2,3} with an optional off-grid shard so that single removals/additions change the weights' gcd) x {second construction, permutations (all for n<=4), every single removal, 2-3 single additions at random positions} x hashes {16 specials, random, constructed via splitmix64^-1 to put a chosen shard's mixed value on Log2Fixed LUT/power-of-two boundaries, exact score ties found by search, near ties (two best shards within 2^-13 relative) found by search}; " +
 			"access: case = shard map x two real ShardingBlobAccess composites (listing order and a permutation) over recording failure-injecting backends x 25-45 operations (Put/Get/GetFromComposite/FindMissing/GetCapabilities) on digests grouped by their leading 8 hash bytes with varying tail, size, digest function and instance name, backend answers honest/hostile/failing; " +
 			"config: case = sharding configuration over error leaves built twice through NewBlobAccessFromConfiguration vs a hand-built composite; " +
 			"distinct = (shard-map fingerprint, hash) for selector evaluations with >=2 shards, (map, operation, digest set) for access/config; non-trivial = at least two shards",
 		Workers:     8,
 		CaseTimeout: 120 * time.Second,
 		Floors: map[string]int64{
-			"sel_evals":                          200000,
-			"sel_perm_checks":                    1200000,
-			"sel_removal_checks":                 1000000,
-			"sel_removal_owner_rerouted":         250000,
-			"sel_addition_checks":                500000,
-			"sel_addition_moved_to_new":          150000,
-			"sel_tie_hashes":                     100,
-			"sel_boundary_hashes":                70000,
-			"sel_special_hashes":                 12000,
-			"sel_model_winner_agrees":            200000,
-			"sel_maps_with_weight_max":           250,
-			"sel_maps_all_perms":                 400,
-			"acc_single_ops":                     8000,
-			"acc_same_prefix_comparisons":        6000,
-			"acc_permuted_composite_comparisons": 3000,
-			"acc_cross_instance_same_hash":       8000,
-			"acc_cross_function_same_hash":       8000,
-			"acc_findmissing_calls":              3000,
-			"acc_findmissing_multi_shard":        1400,
-			"acc_findmissing_hostile":            900,
-			"acc_findmissing_failed":             400,
-			"acc_errors_checked":                 4000,
-			"acc_error_key_discriminating":       3500,
-			"acc_get_midstream_failures":         700,
-			"cfg_routing_comparisons":            1500,
+			"sel_evals":                                   200000,
+			"sel_perm_checks":                             1200000,
+			"sel_removal_checks":                          1000000,
+			"sel_removal_owner_rerouted":                  250000,
+			"sel_addition_checks":                         500000,
+			"sel_addition_moved_to_new":                   150000,
+			"sel_tie_hashes":                              100,
+			"sel_boundary_hashes":                         70000,
+			"sel_special_hashes":                          12000,
+			"sel_model_winner_agrees":                     200000,
+			"sel_maps_with_weight_max":                    250,
+			"sel_maps_all_perms":                          400,
+			"sel_maps_scaled_weights":                     300,
+			"sel_neartie_hashes":                          2000,
+			"sel_maps_with_nearties_and_rescaled_variant": 300,
+			"sel_closecall_rescaled_removal_checks":       500,
+			"sel_closecall_rescaled_addition_checks":      2000,
+			"acc_single_ops":                              8000,
+			"acc_same_prefix_comparisons":                 6000,
+			"acc_permuted_composite_comparisons":          3000,
+			"acc_cross_instance_same_hash":                8000,
+			"acc_cross_function_same_hash":                8000,
+			"acc_findmissing_calls":                       3000,
+			"acc_findmissing_multi_shard":                 1400,
+			"acc_findmissing_hostile":                     900,
+			"acc_findmissing_failed":                      400,
+			"acc_errors_checked":                          4000,
+			"acc_error_key_discriminating":                3500,
+			"acc_get_midstream_failures":                  700,
+			"cfg_routing_comparisons":                     1500,
 		},
 		Assumptions: []string{
 			"shard keys within one map are distinct (the configuration is a map keyed by shard key) and weights are non-zero (the configuration rejects zero)",
@@ -88,6 +100,7 @@ func main() {
 			"'leading bytes' is read as the first 8 bytes of the hash: digests that share them must be co-located; nothing is demanded of digests that differ within them",
 			"'errors carry the shard key' is read as: the failing shard's error comes back with its message and status code intact and with the shard key added to the message",
 			"GetFromComposite is an operation on the parent object and must address the shard that holds the parent",
+			"'rescaled' (the gcd of a variant's weights differs from the base map's) is computed by the harness for coverage counters only; near-tie and tie hashes get exactly the same oracle as every other hash",
 			"the private model of score() (exported sharding.Log2Fixed + own splitmix64/SHA-256 key hash) only steers input generation; counters sel_model_winner_{agrees,disagrees} report how faithful it was",
 		},
 		Body: body,
